@@ -106,6 +106,12 @@ def launchLabel (j : Json) : R Launch.Label := do
     | "writeMeta", [t] => pure (.writeMeta (← nat t))
     | "spawn", [t, w] => pure (.spawn (← nat t) (← nat w))
     | "spawnFail", [t] => pure (.spawnFail (← nat t))
+    | "spawnReady", [t] => pure (.spawnReady (← nat t))
+    | "wCheck", [w, b] => pure (.wCheck (← nat w) (← bool b))
+    | "wClear", [w] => pure (.wClear (← nat w))
+    | "wBind", [w] => pure (.wBind (← nat w))
+    | "wListen", [w] => pure (.wListen (← nat w))
+    | "wAnnounce", [w] => pure (.wAnnounce (← nat w))
     | "release", [t] => pure (.release (← nat t))
     | "ret", [t] => pure (.ret (← nat t))
     | "raised", [t] => pure (.raised (← nat t))
@@ -121,6 +127,8 @@ def launchLabel (j : Json) : R Launch.Label := do
 
 def levJson : Spec.LEv → Json
   | .spawn w => ofList [Json.str "spawn", ofNat w]
+  | .bind w => ofList [Json.str "bind", ofNat w]
+  | .ready w => ofList [Json.str "ready", ofNat w]
   | .exit w => ofList [Json.str "exit", ofNat w]
   | .unlink => ofList [Json.str "unlink"]
   | .ret t0 t => ofList [Json.str "ret", ofNat t0, ofNat t]
@@ -130,6 +138,8 @@ def levOf (j : Json) : R Spec.LEv := do
   | k :: args =>
     match (← rawStr k), args with
     | "spawn", [w] => pure (.spawn (← nat w))
+    | "bind", [w] => pure (.bind (← nat w))
+    | "ready", [w] => pure (.ready (← nat w))
     | "exit", [w] => pure (.exit (← nat w))
     | "unlink", [] => pure .unlink
     | "ret", [t0, t] => pure (.ret (← nat t0) (← nat t))
@@ -137,7 +147,7 @@ def levOf (j : Json) : R Spec.LEv := do
   | _ => throw "bad event"
 
 def lmonJson (m : Spec.LMon) : Json :=
-  obj [("alive", ofList (m.alive.map ofNat)), ("path", ofOpt ofNat m.path), ("badSpawn", ofBool m.badSpawn),
+  obj [("alive", ofList (m.alive.map ofNat)), ("acc", ofList (m.acc.map ofNat)), ("path", ofOpt ofNat m.path), ("badSpawn", ofBool m.badSpawn),
        ("badRet", ofBool m.badRet)]
 
 def launchStateJson (s : Launch.St) : Json :=
@@ -156,6 +166,8 @@ def handle (fn : String) (a : Json) : R Json := do
       ("timerShape", ofBool Gen.C33.timerShape), ("gcLimit", ofNat Gen.C33.gcLimit),
       ("launchShape", ofBool Gen.C33.launchShape), ("gcShape", ofBool Gen.C33.gcShape),
       ("workerExitShape", ofBool Gen.C33.workerExitShape), ("filelockChecksNlink", ofBool Gen.C33.filelockChecksNlink),
+      ("listenBeforeAnnounce", ofBool Gen.C33.listenBeforeAnnounce),
+      ("tcpListenBeforeAnnounce", ofBool Gen.C33.tcpListenBeforeAnnounce),
       ("filelockUnlinksOnRelease", ofBool Gen.C33.filelockUnlinksOnRelease), ("fingerprint", Json.str Gen.C33.fingerprint)])
   | "grace" => pure (ofNat (graceOf (← natF a "q") (← natF a "idle")))
   | "loopAccepts" =>
@@ -172,9 +184,13 @@ def handle (fn : String) (a : Json) : R Json := do
     pure (monJson (Spec.Mon.run idle grace evs))
   | "launchAccepts" =>
     let idle ← natF a "idle"
-    let sh : LShape ← (match fieldOpt a "nlink" with
-      | none => pure LShape.extracted
-      | some j => do pure ⟨← bool j⟩)
+    let nl ← (match fieldOpt a "nlink" with
+      | none => pure LShape.extracted.nlinkCheck
+      | some j => bool j)
+    let lf ← (match fieldOpt a "listenFirst" with
+      | none => pure LShape.extracted.listenFirst
+      | some j => bool j)
+    let sh : LShape := ⟨nl, lf⟩
     let ls ← (← arrF a "events").mapM launchLabel
     match (Launch.ts sh idle).run ls with
     | some s => pure (launchStateJson s)
